@@ -24,12 +24,20 @@ def main():
     args = ap.parse_args()
     tier = args.tier if args.tier in ("quick", "thorough") else "quick"
     seed = int(os.environ.get("VERIF_SEED", "0") or 0)
+    recorded = None
+    if args.replay:
+        # re-run what a VIOLATION line pointed to: the file records the property, tier, seed, the violation's signature and an
+        # engine-specific witness (schedule, operation path, input)
+        import json
+        with open(args.replay) as fh:
+            recorded = json.load(fh)
+        tier, seed = recorded.get("tier", tier), int(recorded.get("seed", seed))
+        os.environ["VERIF_CHILD_CTX"] = "1"       # keep the replay files of the run that is being replayed
     ctx = Ctx(args.pid, tier, seed, LEVELS.get(args.pid, "model_checking"))
     try:
         mod = importlib.import_module("adapters." + args.pid)
-        if args.replay:
-            rc = mod.replay(ctx, args.replay)
-            sys.exit(rc)
+        if recorded is not None:
+            sys.exit(replay(ctx, mod, recorded))
         mod.run(ctx)
         rc = ctx.finish()
     except tlc.MachineryError as e:
@@ -45,6 +53,35 @@ def main():
         print("MACHINERY-FAILURE: harness exception", file=sys.stderr, flush=True)
         rc = 2
     sys.exit(rc)
+
+
+def replay(ctx, mod, recorded):
+    """exit 1 (with a VIOLATION line) when the recorded violation occurs again on the current tree, 0 when it does not."""
+    ctx.replay_prefix = "replay_"
+    sig = recorded.get("signature")
+    print("[%s] replaying: %s" % (ctx.pid, str(recorded.get("description", ""))[:400]), flush=True)
+    witness = recorded.get("replay") or {}
+    precise = getattr(mod, "replay_witness", None)
+    if precise is not None and witness.get("engine") == "simworld":
+        # the exact execution: the recorded scenario under the recorded schedule, judged by the observer specification again
+        verdict = precise(ctx, witness)
+        if verdict is not None:
+            print("[%s] replay of the recorded schedule: %s" % (ctx.pid, "rejected again" if verdict else "accepted now"), flush=True)
+            if verdict:
+                return 1 if ctx.violations else 0
+    # the whole check with the recorded tier and seed (the checks are deterministic for a given seed); reproduced iff a violation
+    # with the same signature is reported again
+    mod.run(ctx)
+    ctx.write_evidence()
+    same = [v for v in ctx.violations if v.get("signature") == sig]
+    if same:
+        print("[%s] replay: the recorded violation occurred again (%d violation(s) in this run)" % (ctx.pid, len(ctx.violations)), flush=True)
+        return 1
+    if ctx.violations:
+        print("[%s] replay: the recorded violation did not occur again, but %d other violation(s) did" % (ctx.pid, len(ctx.violations)), flush=True)
+        return 1
+    print("[%s] replay: the recorded violation did not occur again" % ctx.pid, flush=True)
+    return 0
 
 
 if __name__ == "__main__":
